@@ -94,7 +94,7 @@ type Script struct {
 	Nonce   int64     `json:"n"`
 	Mode    string    `json:"mode,omitempty"` // dynamic: producer | exchange
 	Logs    []LogSpec `json:"g,omitempty"`
-	Outcome string    `json:"o"` // ok | error | panic | nilresult
+	Outcome string    `json:"o"` // ok | error | panic | nilresult | wrongstate
 	Err     *ErrSpec  `json:"e,omitempty"`
 	Panic   string    `json:"p,omitempty"`
 	Header  bool      `json:"h,omitempty"`
@@ -274,13 +274,17 @@ func GenStreamScript(t *simkern.Tape, nonce int64, kind string, o GenOpts) *Scri
 
 // GenInitFailure turns a script into one whose init handler fails.
 func GenInitFailure(t *simkern.Tape, s *Script) {
-	switch t.Draw(3) {
+	switch t.Draw(4) {
 	case 0:
 		s.Outcome = "error"
 		s.Err = GenErr(t, s.Nonce)
 	case 1:
 		s.Outcome = "panic"
 		s.Panic = panicKinds[t.Draw(len(panicKinds))]
+	case 2:
+		// the handler returns a state of the wrong kind for the method (a
+		// producer state from an exchange method, ...; neither from a dynamic one)
+		s.Outcome = "wrongstate"
 	default:
 		s.Outcome = "nilresult"
 	}
